@@ -825,3 +825,181 @@ Proof.
     rewrite (digits_ok_all (is_digit_of 16) (f0 :: fp') ltac:(discriminate) Hfp). cbn [negb].
     exact HX.
 Qed.
+
+Lemma lower_plain c : plain_char c -> (48 <= lower c <= 57) \/ (97 <= lower c <= 102).
+Proof.
+  unfold plain_char, lower. intro H.
+  destruct (N.leb_spec 65 c), (N.leb_spec c 90); cbn [andb]; lia.
+Qed.
+
+Lemma strip_us_plain s : Forall plain_char s -> strip_us s = s.
+Proof.
+  induction s as [|c s IH]; intro H; [reflexivity|]. inversion H as [|? ? Hc Hs]; subst.
+  unfold strip_us in *. cbn [filter].
+  replace (c =? ch_us) with false by (symmetry; apply N.eqb_neq; unfold plain_char, ch_us in *; lia).
+  cbn [negb]. rewrite (IH Hs). reflexivity.
+Qed.
+
+Lemma hexd_Forall_plain l : Forall hexd l -> Forall plain_char l.
+Proof. intro H. eapply Forall_impl; [|exact H]. exact hexd_plain. Qed.
+
+Lemma neqb_of (a b : N) : a <> b -> (a =? b) = false.
+Proof. apply N.eqb_neq. Qed.
+
+Lemma hex_text_not_special neg ip fp eo : Forall hexd ip -> ip <> [] ->
+  let t := map lower (hex_text neg ip fp eo) in
+  bytes_eqb t t_nan = false /\ bytes_eqb t t_snan = false /\
+  bytes_eqb t t_inf = false /\ bytes_eqb t t_ninf = false.
+Proof.
+  intros Hip Hne. destruct ip as [|c ip']; [congruence|].
+  assert (Hc : plain_char c) by (apply hexd_plain; inversion Hip; assumption).
+  pose proof (lower_plain c Hc) as Hl.
+  unfold hex_text, t_nan, t_snan, t_inf, t_ninf, bytes_eqb.
+  destruct neg; cbn [app map list_eqb]; change (lower ch_minus) with 45.
+  - change (45 =? 110) with false. change (45 =? 115) with false. change (45 =? 105) with false.
+    change (45 =? 45) with true. cbn [andb]. rewrite (neqb_of (lower c) 105) by lia. repeat split; reflexivity.
+  - rewrite (neqb_of (lower c) 110), (neqb_of (lower c) 115), (neqb_of (lower c) 105), (neqb_of (lower c) 45) by lia.
+    repeat split; reflexivity.
+Qed.
+
+(* value of the exponent field of a scanned number *)
+Definition exp_value (eo : option (bool * bytes)) : Z :=
+  match eo with
+  | Some (eneg, ds) => let a := Z.of_N (exp_accum 0 (strip_us ds)) in if eneg then (- a)%Z else a
+  | None => 0%Z
+  end.
+
+Section ReadHexText.
+  Variable parse_dec : N -> bytes -> option N.
+
+  Lemma read_hex_text k neg ip fp eo M :
+    kind_class k = CFloat ->
+    Forall hexd ip -> ip <> [] -> Forall hexd fp ->
+    (forall eneg ed, eo = Some (eneg, ed) -> Forall (fun c => is_dec c = true) ed /\ ed <> []) ->
+    of_digits 16 (ip ++ fp) = Some M ->
+    read_elem parse_dec k MHex (hex_text neg ip fp eo) =
+    finish_float k neg (all_zero_digits ip && all_zero_digits fp)
+      (let (m, q) := round_bin (float_ffmt k) M (exp_value eo - 4 * Z.of_nat (length fp))%Z in
+       assemble (float_ffmt k) m q).
+  Proof.
+    intros Hk Hip Hne Hfp Heo HM.
+    unfold read_elem. rewrite Hk. unfold read_float_elem.
+    destruct (hex_text_not_special neg ip fp eo Hip Hne) as (H1 & H2 & H3 & H4).
+    cbv zeta in H1, H2, H3, H4. rewrite H1, H2, H3, H4.
+    rewrite (scan_hex_text neg ip fp eo Hip Hne Hfp Heo).
+    unfold read_hex_float, parse_hex_mag, fnum_is_zero. cbn [fn_neg fn_int fn_frac fn_exp].
+    rewrite (strip_us_plain ip (hexd_Forall_plain ip Hip)), (strip_us_plain fp (hexd_Forall_plain fp Hfp)).
+    rewrite HM. reflexivity.
+  Qed.
+End ReadHexText.
+
+(* ------------------------------------------------------------------ *)
+(** * strconv 'x' formatting *)
+
+Lemma dec_char_ok d : d < 10 -> is_dec (48 + d) = true.
+Proof. intro H. unfold is_dec. apply andb_true_iff. split; apply N.leb_le; lia. Qed.
+
+Lemma fmtx_exp_digits_spec e : e < 10000 ->
+  Forall (fun c => is_dec c = true) (fmtx_exp_digits e) /\ fmtx_exp_digits e <> [] /\
+  exp_accum 0 (fmtx_exp_digits e) = e.
+Proof.
+  intro He. unfold fmtx_exp_digits.
+  destruct (N.ltb_spec e 100) as [H1|H1]; [|destruct (N.ltb_spec e 1000) as [H2|H2]].
+  - repeat split; [|discriminate|].
+    + repeat constructor; apply dec_char_ok; dlia.
+    + cbn [exp_accum]. change (0 <? 10000) with true. cbv iota.
+      replace (0 * 10 + (48 + e / 10 - 48)) with (e / 10) by lia.
+      replace (e / 10 <? 10000) with true by (symmetry; apply N.ltb_lt; dlia). dlia.
+  - repeat split; [|discriminate|].
+    + repeat constructor; apply dec_char_ok; dlia.
+    + cbn [exp_accum]. change (0 <? 10000) with true. cbv iota.
+      replace (0 * 10 + (48 + e / 100 - 48)) with (e / 100) by lia.
+      replace (e / 100 <? 10000) with true by (symmetry; apply N.ltb_lt; dlia).
+      replace (e / 100 * 10 + (48 + (e / 10) mod 10 - 48)) with (e / 10) by dlia.
+      replace (e / 10 <? 10000) with true by (symmetry; apply N.ltb_lt; dlia). dlia.
+  - repeat split; [|discriminate|].
+    + repeat constructor; apply dec_char_ok; dlia.
+    + cbn [exp_accum]. change (0 <? 10000) with true. cbv iota.
+      replace (0 * 10 + (48 + e / 1000 - 48)) with (e / 1000) by lia.
+      replace (e / 1000 <? 10000) with true by (symmetry; apply N.ltb_lt; dlia).
+      replace (e / 1000 * 10 + (48 + (e / 100) mod 10 - 48)) with (e / 100) by dlia.
+      replace (e / 100 <? 10000) with true by (symmetry; apply N.ltb_lt; dlia).
+      replace (e / 100 * 10 + (48 + (e / 10) mod 10 - 48)) with (e / 10) by dlia.
+      replace (e / 10 <? 10000) with true by (symmetry; apply N.ltb_lt; dlia). dlia.
+Qed.
+
+Lemma testbit60 mant : mant < 2 ^ 61 -> N.testbit mant 60 = (2 ^ 60 <=? mant).
+Proof.
+  intro H. rewrite N.testbit_eqb.
+  assert (E61 : 2 ^ 61 = 2 * 2 ^ 60) by (rewrite <- N.pow_succ_r'; reflexivity).
+  pose proof (pow2_pos 60) as Hpos.
+  destruct (N.leb_spec (2 ^ 60) mant) as [Hle|Hlt].
+  - assert (mant / 2 ^ 60 = 1).
+    { apply (N.div_unique mant (2 ^ 60) 1 (mant - 2 ^ 60)); lia. }
+    rewrite H0. reflexivity.
+  - rewrite N.div_small by exact Hlt. reflexivity.
+Qed.
+
+Lemma fmtx_norm_spec fuel : forall mant exp,
+  mant <> 0 -> mant < 2 ^ 61 -> 2 ^ 60 <= mant * 2 ^ N.of_nat fuel ->
+  exists s, fmtx_norm fuel mant exp = (mant * 2 ^ s, (exp - Z.of_N s)%Z) /\
+            2 ^ 60 <= mant * 2 ^ s /\ mant * 2 ^ s < 2 ^ 61.
+Proof.
+  induction fuel as [|f IH]; intros mant exp H0 Hlt Hge.
+  - exists 0. cbn [fmtx_norm]. change (N.of_nat 0) with 0 in Hge. rewrite N.pow_0_r, N.mul_1_r in *.
+    split; [f_equal; lia|split; assumption].
+  - cbn [fmtx_norm]. replace (mant =? 0) with false by (symmetry; apply N.eqb_neq; exact H0).
+    cbn [orb]. rewrite (testbit60 mant Hlt).
+    assert (E61 : 2 ^ 61 = 2 * 2 ^ 60) by (rewrite <- N.pow_succ_r'; reflexivity).
+    destruct (N.leb_spec (2 ^ 60) mant) as [Hle|Hlt60].
+    + exists 0. rewrite N.pow_0_r, N.mul_1_r. split; [f_equal; lia|split; assumption].
+    + destruct (IH (mant * 2) (exp - 1)%Z) as (s & Es & Hs1 & Hs2); try lia.
+      * rewrite Nat2N.inj_succ, N.pow_succ_r' in Hge. lia.
+      * exists (N.succ s). rewrite N.pow_succ_r'. rewrite Es.
+        replace (mant * 2 * 2 ^ s) with (mant * (2 * 2 ^ s)) in * by lia.
+        split; [f_equal; lia|split; assumption].
+Qed.
+
+Lemma fmtx_frac_spec fuel : forall s t a,
+  s + 4 * N.of_nat fuel = 64 -> t < 2 ^ (4 * N.of_nat fuel) ->
+  let ds := fmtx_frac fuel (t * 2 ^ s) in
+  Forall hexd ds /\
+  exists v, of_digits_from 16 a ds = Some (a * 16 ^ N.of_nat (length ds) + v) /\
+            v * 2 ^ 64 = (t * 2 ^ s) * 16 ^ N.of_nat (length ds).
+Proof.
+  induction fuel as [|f IH]; intros s t a Hs Ht ds; subst ds.
+  - cbn [fmtx_frac]. split; [constructor|]. exists 0. cbn [of_digits_from length].
+    change (N.of_nat 0) with 0 in *. rewrite N.mul_0_r, N.pow_0_r in *. replace t with 0 by lia.
+    split; [f_equal; lia|lia].
+  - cbn [fmtx_frac].
+    destruct (N.eqb_spec (t * 2 ^ s) 0) as [E0|N0].
+    + split; [constructor|]. exists 0. cbn [of_digits_from length]. change (N.of_nat 0) with 0.
+      rewrite N.pow_0_r. rewrite E0. split; [f_equal; lia|lia].
+    + set (F4 := 4 * N.of_nat f) in *.
+      assert (HF : 4 * N.of_nat (S f) = F4 + 4) by (subst F4; lia).
+      rewrite HF in Ht, Hs.
+      assert (E60 : 2 ^ 60 = 2 ^ F4 * 2 ^ s) by (rewrite <- N.pow_add_r; f_equal; lia).
+      assert (E64 : 2 ^ 64 = 2 ^ F4 * 2 ^ (s + 4)) by (rewrite <- N.pow_add_r; f_equal; lia).
+      assert (E16 : 2 ^ (s + 4) = 2 ^ s * 16) by (rewrite N.pow_add_r; reflexivity).
+      assert (EF4 : 2 ^ (F4 + 4) = 2 ^ F4 * 16) by (rewrite N.pow_add_r; reflexivity).
+      pose proof (pow2_pos F4) as HpF. pose proof (pow2_pos s) as Hps.
+      set (d := t / 2 ^ F4). set (t' := t mod 2 ^ F4).
+      assert (Hd : d < 16) by (subst d; apply N.div_lt_upper_bound; lia).
+      assert (Ht' : t' < 2 ^ F4) by (subst t'; apply N.mod_lt; lia).
+      assert (Et : t = 2 ^ F4 * d + t') by (subst d t'; apply N.div_mod; lia).
+      assert (Ediv : t * 2 ^ s / 2 ^ 60 = d).
+      { rewrite E60. rewrite N.div_mul_cancel_r by lia. reflexivity. }
+      assert (Emod : (t * 2 ^ s * 16) mod 2 ^ 64 = t' * 2 ^ (s + 4)).
+      { rewrite E64. replace (t * 2 ^ s * 16) with (t * 2 ^ (s + 4)) by lia.
+        rewrite N.mul_mod_distr_r by lia. reflexivity. }
+      rewrite Ediv, Emod. rewrite (N.mod_small d 16) by exact Hd.
+      destruct (IH (s + 4) t' (a * 16 + d)) as (Hall & v' & Hv1 & Hv2); [subst F4; lia|exact Ht'|].
+      set (ds' := fmtx_frac f (t' * 2 ^ (s + 4))) in *.
+      split.
+      * constructor; [|exact Hall]. apply is_digit_of_digit_char; lia.
+      * exists (d * 16 ^ N.of_nat (length ds') + v').
+        cbn [of_digits_from length]. rewrite digit_val_digit_char by lia.
+        replace (d <? 16) with true by (symmetry; apply N.ltb_lt; exact Hd).
+        rewrite Hv1. rewrite Nat2N.inj_succ, N.pow_succ_r'. split; [f_equal; lia|].
+        rewrite N.mul_add_distr_r, Hv2. rewrite Et at 2. rewrite E64, E16. lia.
+Qed.
